@@ -425,6 +425,11 @@ impl<L: ChainListener> ChainTracker<L> {
     pub fn block_chunk(&mut self, hash: BlockHash, offset: u32, chunk: &[u8]) -> Result<(), Error> {
         if offset == 0 {
             assert!(self.decode_state.is_none(), "already decoding, and got chunk at offset 0");
+            // a previously streamed block may have been refused after the listeners saw its
+            // events; they must not carry its partial decode state into this one
+            for (listener, _) in self.listeners.values() {
+                listener.on_streamed_block_start();
+            }
             self.decode_state = Some(RefCell::new(BlockDecodeState::new(hash)));
         }
 
@@ -795,6 +800,11 @@ pub trait ChainListener: SendSync {
     fn on_push<F>(&self, f: F)
     where
         F: FnOnce(&mut dyn PushListener);
+
+    /// A new streamed block is about to be pushed (see `on_push`).
+    /// A listener that still holds the partial decode state of an earlier streamed block
+    /// that was never completed (the tracker refused that block) must drop it.
+    fn on_streamed_block_start(&self) {}
 }
 
 /// Convert the Network to a max target value for each network.
